@@ -17,7 +17,7 @@ package intersect
 //@ o-sig: (this, that map[$key(typ)]struct{}) (r map[$key(typ)]struct{})
 //@ o-pure
 //@ o-ensures: [intersection] r != nil && forall k val :: (k in r) <==> (k in this && k in that)
-//@ o-loop: 1: invariant intersect != nil && forall k val :: (k in intersect) <==> (visited(k) && k in that)
+//@ o-loop: 1: invariant $out0 != nil && forall k val :: (k in $out0) <==> (visited(k) && k in that)
 
 //@ func (g *gen) genSlice(typ *types.Slice) (err error)
 //@ emits: decls
@@ -27,6 +27,6 @@ package intersect
 //@ o-ensures: [only-common] forall k int :: 0 <= k && k < len(r) ==> elemOf(r[k], this) && contains(that, r[k])
 //@ o-ensures: [all-common] forall j int :: 0 <= j && j < len(this) && contains(that, this[j]) ==> elemOf(this[j], r)
 //@ o-ensures: [first-list-order] forall a int, b int :: 0 <= a && a < b && b < len(r) ==> exists c int, d int :: 0 <= c && c < d && d < len(this) && r[a] == this[c] && r[b] == this[d]
-//@ o-loop: 1: invariant forall k int :: 0 <= k && k < len(intersect) ==> (exists c int :: 0 <= c && c < $i && intersect[k] == this[c]) && contains(that, intersect[k])
-//@ o-loop: 1: invariant forall j int :: 0 <= j && j < $i && contains(that, this[j]) ==> elemOf(this[j], intersect)
-//@ o-loop: 1: invariant forall a int, b int :: 0 <= a && a < b && b < len(intersect) ==> exists c int, d int :: 0 <= c && c < d && d < $i && intersect[a] == this[c] && intersect[b] == this[d]
+//@ o-loop: 1: invariant forall k int :: 0 <= k && k < len($out0) ==> (exists c int :: 0 <= c && c < $i && $out0[k] == this[c]) && contains(that, $out0[k])
+//@ o-loop: 1: invariant forall j int :: 0 <= j && j < $i && contains(that, this[j]) ==> elemOf(this[j], $out0)
+//@ o-loop: 1: invariant forall a int, b int :: 0 <= a && a < b && b < len($out0) ==> exists c int, d int :: 0 <= c && c < d && d < $i && $out0[a] == this[c] && $out0[b] == this[d]
